@@ -352,6 +352,82 @@ def mk_DMA(r):
     return dma.WishboneDMAWriter(bus, with_csr=r.random() < 0.5)
 
 
+def mk_AXIFull(r):
+    from litex.soc.interconnect import axi
+    from litex.soc.interconnect.axi import axi_full
+    from litex.soc.interconnect import wishbone
+    from migen import Module
+
+    class M(Module):
+        def __init__(self):
+            k = r.randrange(5)
+            if k == 0:
+                a, b = r.choice([(32, 64), (64, 32), (32, 128), (128, 32)])
+                self.a = axi.AXIInterface(data_width=a, address_width=32, id_width=r.choice([1, 4]))
+                self.b = axi.AXIInterface(data_width=b, address_width=32, id_width=len(self.a.aw.id))
+                self.submodules.c = axi.AXIConverter(self.a, self.b)
+            elif k == 1:
+                self.a = axi.AXIInterface(data_width=32, address_width=32, id_width=2)
+                self.w = wishbone.Interface(data_width=32, adr_width=30)
+                self.submodules.c = axi.AXI2Wishbone(self.a, self.w, base_address=r.choice([0, 0x1000]))
+            elif k == 2:
+                self.w = wishbone.Interface(data_width=32, adr_width=30)
+                self.a = axi.AXIInterface(data_width=32, address_width=32, id_width=1)
+                self.submodules.c = axi.Wishbone2AXI(self.w, self.a)
+            elif k == 3:
+                nm, ns = r.randint(1, 2), r.randint(1, 2)
+                self.masters = [axi.AXIInterface(data_width=32, address_width=32, id_width=1) for _ in range(nm)]
+                self.slaves = [axi.AXIInterface(data_width=32, address_width=32, id_width=1) for _ in range(ns)]
+                dec = [((lambda a_, k_=k_: a_[8:10] == k_), s_) for k_, s_ in enumerate(self.slaves)]
+                cls = axi_full.AXIInterconnectShared if r.random() < 0.5 else axi_full.AXICrossbar
+                self.submodules.ic = cls(self.masters, dec, timeout_cycles=r.choice([None, 8]))
+            else:
+                self.a = axi.AXIInterface(data_width=32, address_width=32, id_width=1)
+                self.l = axi.AXILiteInterface(data_width=32, address_width=32)
+                self.submodules.c = axi.AXILite2AXI(self.l, self.a)
+    return M()
+
+
+def mk_AHBAvalon(r):
+    from litex.soc.interconnect import wishbone, ahb
+    from migen import Module
+
+    class M(Module):
+        def __init__(self):
+            self.w = wishbone.Interface(data_width=32, adr_width=30)
+            if r.random() < 0.5:
+                self.a = ahb.AHBInterface()
+                self.submodules.c = ahb.AHB2Wishbone(self.a, self.w)
+            else:
+                from litex.soc.interconnect.avalon import AvalonMMInterface, AvalonMM2Wishbone
+                self.submodules.c = AvalonMM2Wishbone(data_width=32, avalon_address_width=32, wishbone_address_width=30,
+                                                      wishbone_base_address=r.choice([0, 0x1000]), burst_increment=1, avoid_combinatorial_loop=r.random() < 0.5)
+    return M()
+
+
+def mk_SPISlave(r):
+    from migen import Record
+    from litex.soc.cores.spi.spi_slave import SPISlave
+    pads = Record([("clk", 1), ("cs_n", 1), ("mosi", 1), ("miso", 1)])
+    return SPISlave(pads, data_width=r.choice([8, 16, 32]))
+
+
+def mk_I2C(r):
+    from litex.soc.cores.i2c import I2CMasterMachine
+    return I2CMasterMachine(clock_width=r.choice([4, 8, 20]))
+
+
+def mk_WishboneBurstSRAM(r):
+    from litex.soc.interconnect import wishbone
+    from migen import Module
+
+    class M(Module):
+        def __init__(self):
+            self.bus = wishbone.Interface(data_width=32, adr_width=30, bursting=True)
+            self.submodules.s = wishbone.SRAM(r.choice([32, 64, 256]), bus=self.bus, read_only=r.random() < 0.2)
+    return M()
+
+
 def mk_SoCMini(r):
     """a whole SoC without CPU: bus interconnect, CSR bridge and banks, controller, timer, optional UART, SRAMs, a test master."""
     import logging
@@ -395,7 +471,8 @@ MAKERS = {
     "EventManager": mk_EventManager, "Timer": mk_Timer, "Watchdog": mk_Watchdog, "PWM": mk_PWM, "LedChaser": mk_LedChaser, "GPIO": mk_GPIO,
     "Encoder8b10b": mk_Encoder8b10b, "Decoder8b10b": mk_Decoder8b10b, "TMDS": mk_TMDS, "ECC": mk_ECC, "PRBS": mk_PRBS,
     "UARTPHY": mk_UARTPHY, "UART": mk_UART, "SPIMaster": mk_SPIMaster, "WaitTimer": mk_WaitTimer,
-    "PulseSynchronizer": mk_PulseSynchronizer, "FSMCounter": mk_FSMCounter, "DMA": mk_DMA, "SoCMini": mk_SoCMini,
+    "PulseSynchronizer": mk_PulseSynchronizer, "FSMCounter": mk_FSMCounter, "DMA": mk_DMA, "SoCMini": mk_SoCMini, "AXIFull": mk_AXIFull, "AHBAvalon": mk_AHBAvalon, "I2CMachine": mk_I2C,
+    "WishboneBurstSRAM": mk_WishboneBurstSRAM, "SPISlave": mk_SPISlave,
 }
 CORES = sorted(MAKERS)
 
